@@ -1,6 +1,6 @@
 """C15 — accepted plans can always make progress."""
 import json
-from .. import common, framework, fndiff, cmdrun, gen, oracles, explore2
+from .. import common, framework, fndiff, cmdrun, gen, oracles, explore2, crash
 from ..histories import run_history, replay_trace
 
 WEIGHTS = {"new_task": 24, "new_epic": 12, "set": 22, "sequence": 34, "plan": 4, "prune_yes": 2, "claim_oldest": 2}
@@ -108,11 +108,40 @@ def unterminated_unlink(ctx, r):
         st.close()
 
 
+def clock_steps_back(ctx, r):
+    """the log carries an earlier claim and release of the only task, stamped by a clock that runs ahead (a merged log; this machine's clock set
+    back): claim → hand back → claim again, checking after every step that a todo task with nothing in its way is handed out.  What a task is
+    follows from the order of the lines, never from how their stamps compare."""
+    st = cmdrun.Store(ctx.ergo, ctx.go, legacy=r.p(20))
+    trace = []
+    try:
+        def ex(argv, stdin=None):
+            res = st.exec(argv, stdin); trace.append({"argv": argv, "stdin": None if stdin is None else stdin.decode(), "exit": res["exit"]}); return res
+        tid = json.loads(ex(["--json", "new", "task"], b'{"title":"the only task"}')["stdout"])["id"]
+        crash.add_skewed_history(st, r, trace, max_tasks=1)
+        for step in (["--json", "--agent", "bob", "claim"], ["--json", "--agent", "bob", "set", tid], ["--json", "--agent", "carol", "claim"]):
+            res = ex(step, b'{"state":"todo"}' if step[-2] == "set" else None)
+            ctx.count(1, key=("clock-steps-back", step[3] if step[3] != "set" else "release"))
+            g = st.graph()
+            if "err" in g:
+                ctx.violation("C15 store unreadable", g["err"][:200], {"trace": trace}); return
+            t = oracles.task_of(g["graph"], tid)
+            if step[-1] == "claim" and (res["exit"] != 0 or t["st"] != "doing" or t["claimed_by"] != step[2]):
+                ctx.violation("C15 a ready task is not handed out (claim after an earlier claim-and-release stamped ahead)",
+                              "`claim` by %s exits %s and prints %s; the task is %s, claimed by %r" % (step[2], res["exit"], res["stdout"].strip()[:100], t["st"], t["claimed_by"]), {"trace": trace}); return
+            if oracle(ctx, st, {"cmd": step[3]}, step[2], {"post": g}, trace):
+                return
+    finally:
+        st.close()
+
+
 def run(ctx):
     witness(ctx)
     rr = gen.Rng(ctx.seed * 1000003 + 1515)
     for i in range(3 if ctx.quick else 30):
         unterminated_unlink(ctx, rr.fork())
+    for i in range(2 if ctx.quick else 20):
+        clock_steps_back(ctx, rr.fork())
     # progress also depends on what `set`/`new` record: a todo task that ends up carrying a claimant is never ready and is not "held" either.
     # The exhaustive decision table of buildSetEvents against the model, and every disagreement run on the real binary under this property's oracle
     res = fndiff.run_stream(ctx.ev, ["fn-setev"])
